@@ -232,22 +232,23 @@ func (a vBtAns) canon() string {
 }
 
 type vNode struct {
-	mu        sync.Mutex
-	heads     map[string]uint64 // latest / finalized / safe
-	bnErrAll  bool              // every eth_getBlockByNumber fails
-	bnErrLeft int               // the next k eth_getBlockByNumber fail
-	bnNoNum   bool              // failures are "block without number" instead of an RPC error
-	bnFails   int
-	tags      map[string]int
-	receipts  map[ethCommon.Hash]vRcAns
-	blocks    map[ethCommon.Hash]vBtAns
-	bump      map[ethCommon.Hash]map[string]uint64 // on receipt lookup of tx: new heads (head moves while the request is in flight)
-	calls     []string
-	gsErr     bool
-	notifier  *rpc.Notifier
-	subID     rpc.ID
-	subCrit   string
-	wake      chan struct{}
+	mu            sync.Mutex
+	heads         map[string]uint64 // latest / finalized / safe
+	bnErrAll      bool              // every eth_getBlockByNumber fails
+	bnErrLeft     int               // the next k eth_getBlockByNumber fail
+	bnNoNum       bool              // failures are "block without number" instead of an RPC error
+	bnFails       int
+	bnOKAfterFail int // successful polls since the last scripted failure
+	tags          map[string]int
+	receipts      map[ethCommon.Hash]vRcAns
+	blocks        map[ethCommon.Hash]vBtAns
+	bump          map[ethCommon.Hash]map[string]uint64 // on receipt lookup of tx: new heads (head moves while the request is in flight)
+	calls         []string
+	gsErr         bool
+	notifier      *rpc.Notifier
+	subID         rpc.ID
+	subCrit       string
+	wake          chan struct{}
 }
 
 func (n *vNode) poke() {
@@ -271,8 +272,12 @@ func (e *vEth) GetBlockByNumber(ctx context.Context, tag string, full bool) (map
 		n.bnErrLeft--
 		fail = true
 	}
+	if !fail {
+		n.bnOKAfterFail++
+	}
 	if fail {
 		n.bnFails++
+		n.bnOKAfterFail = 0
 		if n.bnNoNum {
 			return map[string]interface{}{"hash": ethCommon.Hash{}}, nil
 		}
@@ -681,12 +686,12 @@ func (c *vCase) waitLogSeq(from int, p1, p2 func(vEntry) bool) bool {
 }
 
 var vOutcomeByMsg = map[string]string{
-	"observation timed out":                                "timeout",
-	"tx was orphaned":                                      "orphaned",
-	"transaction receipt with non-success status":          "failed",
-	"transaction could not be fetched":                     "retry",
+	"observation timed out":                       "timeout",
+	"tx was orphaned":                             "orphaned",
+	"transaction receipt with non-success status": "failed",
+	"transaction could not be fetched":            "retry",
 	"tx got dropped and mined in a different block; the message should have been reobserved": "mismatch",
-	"observation confirmed":                                "confirmed",
+	"observation confirmed": "confirmed",
 }
 
 // results collects everything observable since the op began and renders the common tail of a line.
@@ -889,11 +894,12 @@ func (c *vCase) pollerParked() bool {
 		lines := strings.Split(g, "\n")
 		return len(lines) >= 2 && strings.Contains(lines[1], marker)
 	}
+	vNotFound++
 	return true // no such goroutine any more
 }
 
 var vStackBuf = make([]byte, 4<<20)
-var vFlushes, vDumps int
+var vFlushes, vDumps, vNotFound int
 
 func (c *vCase) waitPollerParked() {
 	vFlushes++
@@ -1012,9 +1018,11 @@ func (c *vCase) opHead(lat uint64, pollErr int, noNum bool, pick func(vTxRef) vR
 		deadline := time.NewTimer(vWatchdog)
 		for c.exited == "" && c.stuck == "" {
 			c.node.mu.Lock()
-			fails := c.node.bnFails
+			fails, okAfter := c.node.bnFails, c.node.bnOKAfterFail
 			c.node.mu.Unlock()
-			if pollErr < 3 && fails >= pollErr {
+			// ... and the poller's retry loop has ended with a successful poll: failures armed by the next op
+			// must not extend this iteration's run of consecutive failures
+			if pollErr < 3 && fails >= pollErr && okAfter >= 1 {
 				break
 			}
 			select {
@@ -1126,4 +1134,3 @@ func (c *vCase) opReobs(r vReobs, pick func(vTxRef) vRcAns) {
 	c.emit(fmt.Sprintf("reobs %s tx=%s %s bnerr=%d nn=%d rc=%s rbt=%s rlogs=%s %s pe=0 ans=%s %s", c.id, hex.EncodeToString(r.tx[:]),
 		before, be, nn, r.rc.canon(), r.bt.canon(), vjoin(logs, ";"), c.headsCanon(), ans, c.results(mark)))
 }
-
